@@ -60,7 +60,7 @@ class Group:
 class H:
     def __init__(self, name, group, kani, tier="quick", cap=300, flags=(), unwind=3,
                  expect=None, miri=False, desc="", bound="", encodes=(), stubs=(), assumes=(),
-                 mem=16, replay=None, native_only_release=False):
+                 mem=16, replay=None, native_only_release=False, discover=False, no_end=False):
         self.name = name            # unique id: "<group>/<harness ident>"
         self.group = group
         self.kani = kani            # fully qualified harness fn
@@ -73,6 +73,9 @@ class H:
         self.desc, self.bound = desc, bound
         self.encodes, self.stubs, self.assumes = list(encodes), list(stubs), list(assumes)
         self.mem = mem
+        self.no_end = no_end        # every path of the harness ends in a modelled block (assume(false))
+        self.discover = discover    # bound discovery with --partial-loops (safe only where a
+                                    # truncated loop cannot turn a later size into garbage)
         self.replay = replay or kani.split("::")[-2]
 
 
@@ -128,7 +131,7 @@ def ensure_log_templates():
         _templates_done = True
         if rc == 0 and m:
             lines = m.group(1).splitlines()
-            body = "\n".join(l for l in lines if l.startswith("pub const") or l.startswith("// TEMPLATE-FAIL"))
+            body = "\n".join(l for l in lines if l.startswith("pub const") or l.startswith("pub fn img_") or l.startswith("// TEMPLATE-FAIL"))
             for l in lines:
                 mm = re.match(r"// TEMPLATE-FAIL (\S+) (.*)", l)
                 if mm:
@@ -138,7 +141,7 @@ def ensure_log_templates():
                 open(path, "w").write(new)
             return None
         names = re.findall(r'\("([A-Z0-9_]+)", \d+, \d+, \d+, \d\)', open(os.path.join(VERIF, "hk/sst/log.rs")).read())
-        body = "".join(f"pub const T_{n}_LEN: usize = 1;\npub const T_{n}_LAYOUT: [u8; 1] = [0];\npub const T_{n}_KIND: [u8; 1] = [0];\npub const T_{n}_CRCS: [(usize, usize); 0] = [];\n" for n in names)
+        body = "".join(f"pub const T_{n}_LEN: usize = 1;\npub const T_{n}_LAYOUT: [u8; 1] = [0];\npub const T_{n}_KIND: [u8; 1] = [0];\npub const T_{n}_CRCS: [(usize, usize); 0] = [];\npub fn img_{n.lower()}(_p: &[u8], _crc: fn(&[u8]) -> u32) -> [u8; 1] {{ [0] }}\n" for n in names)
         open(path, "w").write("// FALLBACK: template derivation failed\n" + body)
         open(os.path.join(GEN, "log_templates.err"), "w").write(out[-6000:])
         return "log template derivation failed (see build/gen/log_templates.err)"
@@ -380,7 +383,7 @@ def run_harness(h, g, hints, logdir, max_rounds=40):
                 break
             if partial:
                 partial_rounds += 1
-            partial = partial_rounds < 10
+            partial = h.discover and partial_rounds < 10
             continue
         if partial:
             # no loop is too short any more under discovery: now the strict, deciding run
@@ -390,7 +393,7 @@ def run_harness(h, g, hints, logdir, max_rounds=40):
         # converged: no unwinding assertion fails
         r.failed = [c for c in p["checks"] if c["status"] == "FAILURE"]
         r.covers = [c for c in p["checks"] if is_cover(c)]
-        bad_cov = [c for c in r.covers if c["status"] != "SATISFIED"]
+        bad_cov = [c for c in r.covers if c["status"] != "SATISFIED" and not (h.no_end and c["desc"] == "END")]
         if r.failed:
             r.status = "FAIL"
         elif p["verdict"] == "FAILED" and not bad_cov:
@@ -399,7 +402,7 @@ def run_harness(h, g, hints, logdir, max_rounds=40):
         elif bad_cov:
             r.status = "INCONCLUSIVE"
             r.reason = "vacuity: cover not satisfied: " + "; ".join(f"{c['desc']}={c['status']}" for c in bad_cov)
-        elif not any(c["desc"] == "END" for c in r.covers):
+        elif not h.no_end and not any(c["desc"] == "END" for c in r.covers):
             r.status = "INCONCLUSIVE"
             r.reason = "vacuity: END cover missing"
         else:
@@ -511,7 +514,10 @@ def native_replay(h, g, tape, release=False, miri=False):
 
 def norm_desc(s):
     s = s.replace('\\"', '"')
-    return re.sub(r"\s+", " ", s).strip()
+    s = re.sub(r"\s+", " ", s).strip()
+    if len(s) >= 2 and s[0] == '"' and s[-1] == '"':
+        s = s[1:-1]
+    return s
 
 
 def desc_matches_native(kdesc, nmsg):
@@ -765,7 +771,7 @@ def write_evidence(pid, prop, tier, seed, results, violations, known_hits, incon
         stubs.update(r.h.stubs)
         stubs.update(p.get("stubs", []) if isinstance(p.get("stubs"), list) else [])
         assumes.update(r.h.assumes)
-        if r.status in ("PASS", "FAIL") and r.covers and all(c["status"] == "SATISFIED" for c in r.covers):
+        if r.status in ("PASS", "FAIL") and r.covers and all(c["status"] == "SATISFIED" or (r.h.no_end and c["desc"] == "END") for c in r.covers):
             nontrivial += 1
         per.append(dict(harness=r.h.name, kani=r.h.kani, status=r.status, reason=r.reason,
                         what=r.h.desc, bound=r.h.bound, tape_bytes=None,
